@@ -366,6 +366,44 @@ func caseTwinOp(d dialect, a dsch) *op {
 	return o
 }
 
+// opClassOp marshals and plans a PostgreSQL table whose index parts name their operator classes
+// explicitly; whether a class is the default one (and is therefore left out) is looked up in a
+// table the package builds on first use.
+func opClassOp(a dsch) *op {
+	d := dialects[2]
+	o := &op{name: "pg-opclass"}
+	o.steps = []func() error{func() error {
+		s := schema.New(d.schema)
+		for _, tb := range a.Tables {
+			t := schema.NewTable(tb.Name).AddColumns(
+				schema.NewColumn("id").SetType(d.intT()),
+				schema.NewColumn("c").SetType(&schema.StringType{T: "text"}))
+			id, _ := t.Column("id")
+			c, _ := t.Column("c")
+			t.AddIndexes(
+				schema.NewIndex(tb.Name+"_c").AddParts(&schema.IndexPart{C: c, Attrs: []schema.Attr{&postgres.IndexOpClass{Name: "text_ops"}}}),
+				schema.NewIndex(tb.Name+"_p").AddParts(&schema.IndexPart{C: c, Attrs: []schema.Attr{&postgres.IndexOpClass{Name: "text_pattern_ops"}}}, &schema.IndexPart{C: id, SeqNo: 1, Attrs: []schema.Attr{&postgres.IndexOpClass{Name: "int4_ops"}}}))
+			s.AddTables(t)
+		}
+		schema.NewRealm(s)
+		doc, err := d.marshal(s)
+		if err != nil {
+			return err
+		}
+		changes, err := d.diff.SchemaDiff(schema.New(d.schema), s)
+		if err != nil {
+			return err
+		}
+		plan, err := d.plan.PlanChanges(context.Background(), "p", changes)
+		if err != nil {
+			return err
+		}
+		o.out = append(doc, []byte("--plan--\n"+planText(plan))...)
+		return nil
+	}}
+	return o
+}
+
 var errReplan = errors.New("planning the same change set twice gives different statements")
 
 func planText(p *migrate.Plan) string {
@@ -430,6 +468,15 @@ func hclFilesOp(d dialect, a dsch) *op {
 			for i, b := range splitBlocks(string(doc)) {
 				name := fmt.Sprintf("/project/c%02d/schema.hcl", i)
 				if _, diag := parser.ParseHCL([]byte(b), name); diag.HasErrors() {
+					return fmt.Errorf("parse %s: %s", name, diag.Error())
+				}
+			}
+			// Shared values live in files of their own; one of them builds on the other.
+			for name, body := range map[string]string{
+				"/project/00_base.hcl":    "locals {\n  base = 7\n}\n",
+				"/project/zz_derived.hcl": "locals {\n  derived = local.base\n}\n",
+			} {
+				if _, diag := parser.ParseHCL([]byte(body), name); diag.HasErrors() {
 					return fmt.Errorf("parse %s: %s", name, diag.Error())
 				}
 			}
@@ -720,6 +767,7 @@ func (sc scenario) ops(perm func(int) []int) []*op {
 	out = append(out, scopeOp(dialects[1], sc.a), scopeOp(dialects[2], sc.a))
 	out = append(out, realmOp(dialects[1], sc.realm), realmOp(dialects[2], sc.realm))
 	out = append(out, caseTwinOp(dialects[1], sc.a), caseTwinOp(dialects[2], sc.a))
+	out = append(out, opClassOp(sc.a))
 	return append(out, sumOp(sc.files))
 }
 
